@@ -428,9 +428,9 @@ def to_dense(a, legs=None, native=False, reverse=False) -> numpy.ndarray | torch
         reverse the order in which blocks are sorted. Default order is ascending in
         values of block's charges.
     """
-    c = a.to_nonsymmetric(legs, native, reverse)
+    c, shape = _to_nonsymmetric(a, legs, native, reverse)
     x = c.config.backend.clone(c._data)
-    x = c.config.backend.diag_create(x) if c.isdiag else x.reshape(c.struct.D[0])
+    x = c.config.backend.diag_create(x) if c.isdiag else x.reshape(shape)
     return x
 
 
@@ -481,6 +481,14 @@ def to_nonsymmetric(a, legs=None, native=False, reverse=False) -> 'Tensor':
         reverse the order in which blocks are sorted. Default order is ascending in
         values of block's charges.
     """
+    c, _ = _to_nonsymmetric(a, legs, native, reverse)
+    if c.size == 0:  # a tensor without elements has no blocks
+        c = c._replace(struct=c.struct._replace(t=(), D=()), slices=())
+    return c
+
+
+def _to_nonsymmetric(a, legs, native, reverse):
+    """ Worker of to_nonsymmetric and to_dense; returns the tensor with a single block and the shape of that block. """
     config_dense = a.config._replace(sym=sym_none)
     #
     a = a.consume_transpose()
@@ -533,7 +541,7 @@ def to_nonsymmetric(a, legs=None, native=False, reverse=False) -> 'Tensor':
     c_struct = _struct(s=c_s, n=(), diag=a.isdiag, t=c_t, D=c_D, size=Dp)
     c_slices = (_slc(((0, Dp),), c_D[0], Dp),)
     data = a.config.backend.merge_to_dense(a._data, Dtot, meta)
-    return a._replace(config=config_dense, struct=c_struct, slices=c_slices, data=data, mfs=None, hfs=None)
+    return a._replace(config=config_dense, struct=c_struct, slices=c_slices, data=data, mfs=None, hfs=None), c_D[0]
 
 
 def zero_of_dtype(a):
